@@ -1307,6 +1307,45 @@ Proof.
   destruct lg; [apply ck_log_op_k|]; apply ck_upd_hobj_k; exact H2.
 Qed.
 
+(* a nested access to one cell: two bumps of the own component, the outer
+   tracking with the first clock, the inner ones with the second *)
+Lemma cell_nested_micro_ck e me u k : ck e (res_exec (exec_micro e me (MCellNested u k))).
+Proof.
+  cbn [exec_micro].
+  assert (H1 : ck e (causality_inc e me)) by (apply ck_causality_inc_k, ck_refl).
+  revert H1. generalize (causality_inc e me). intros E1 H1.
+  destruct (get_cell E1 u) as [s|] eqn:Hg; [|exact H1].
+  destruct (ce_writing s); [exact H1|].
+  destruct (negb (Nat.eqb k 0) && negb (Nat.eqb k 3) && negb (Nat.eqb (ce_reading s) 0)); [exact H1|].
+  assert (Hout : forall s1,
+            (if Nat.eqb k 0 || Nat.eqb k 3 then cell_track_read s (caus_of E1 me)
+             else cell_track_write s (caus_of E1 me)) = inl s1 ->
+            forall w, cell_wf w s -> bndf w (caus_of E1 me) -> cell_wf w s1).
+  { intros s1 Ho w Hs Hc. destruct (Nat.eqb k 0 || Nat.eqb k 3);
+      eauto using cell_track_read_wf, cell_track_write_wf. }
+  destruct (if Nat.eqb k 0 || Nat.eqb k 3 then cell_track_read s (caus_of E1 me)
+            else cell_track_write s (caus_of E1 me)) as [s1|pn] eqn:Ho; [|exact H1].
+  specialize (Hout s1 eq_refl).
+  assert (H2 : ck e (causality_inc E1 me)) by (apply ck_causality_inc_k, H1).
+  assert (Hle : vle (caus_of E1 me) (caus_of (causality_inc E1 me) me)).
+  { destruct (mono_causality_inc_k E1 E1 me (mono_refl E1)) as (_ & Hc & _). apply Hc. }
+  assert (Hg2 : get_cell (causality_inc E1 me) u = Some s) by exact Hg.
+  revert H2 Hle Hg2. generalize (causality_inc E1 me). intros E2 H2 Hle Hg2.
+  destruct (Nat.eqb k 0); [exact H2|]. destruct (negb (Nat.eqb k 3)); [exact H2|].
+  destruct (cell_track_read s1 (caus_of E2 me)) as [s2|pn] eqn:R2; [|exact H2].
+  destruct (cell_track_read s2 (caus_of E2 me)) as [s3|pn] eqn:R3; [|exact H2].
+  destruct (cell_track_read s3 (caus_of E2 me)) as [s4|pn] eqn:R4; [|exact H2].
+  cbn [res_exec]. apply ck_log_op_k, ck_upd_object_k; [|exact H2].
+  intros w Hw. cbn [obj_wf].
+  pose proof (CWw_get_cell _ _ _ _ Hw Hg2) as Hs.
+  pose proof (CWw_caus_of _ _ me Hw) as Hc2.
+  pose proof (bndf_vle _ _ _ Hle Hc2) as Hc1.
+  eapply cell_track_read_wf; [exact R4| |exact Hc2].
+  eapply cell_track_read_wf; [exact R3| |exact Hc2].
+  eapply cell_track_read_wf; [exact R2| |exact Hc2].
+  apply Hout; assumption.
+Qed.
+
 Ltac cstep' :=
   first [ match goal with
           | |- context [load_post ?e ?me ?a ?o] =>
@@ -1325,7 +1364,7 @@ Lemma exec_micro_ck e me m : ck e (res_exec (exec_micro e me m)).
 Proof.
   destruct m;
     try apply load_micro_ck; try apply fu_load_micro_ck; try apply rmw_micro_ck;
-    try apply fence_micro_ck; try apply recv_micro_ck;
+    try apply fence_micro_ck; try apply recv_micro_ck; try apply cell_nested_micro_ck;
     timeout 60 ck_tac'.
 Qed.
 
@@ -1413,7 +1452,7 @@ Proof. rewrite iteration_fst. apply run_clock_wf, init_clock_wf. Qed.
 Definition is_tracked (m : micro) : bool :=
   match m with
   | MLoadPost _ _ _ | MFuLoadPost _ _ _ _ _ | MStorePost _ _ _ | MRmwPost _ _ _ _
-  | MCellRead _ | MCellWrite _ _ | MFence _ => true
+  | MCellRead _ | MCellWrite _ _ | MCellNested _ _ | MFence _ => true
   | _ => false
   end.
 
@@ -1803,7 +1842,8 @@ Print Assumptions cell_write_allowed_iff.
        thread are ordered anyway; the stamp only has to be covered by the clock
        of OTHER threads that have synchronised with this one afterwards).
        is_tracked lists the operations for which C2 holds: MLoadPost,
-       MFuLoadPost, MStorePost, MRmwPost, MCellRead, MCellWrite, MFence; the
+       MFuLoadPost, MStorePost, MRmwPost, MCellRead, MCellWrite, MCellNested
+       (which bumps twice), MFence; the
        polls of block_on go through load_post
        (own_component_increases_load_post).  MSpawn bumps the parent after the
        child has been created (spawn_clock).  MLazyGet bumps before each of its
